@@ -107,9 +107,8 @@ def gen_registry():
     # --- open_registry: regexps and the strip set
     opn = find_func(reg, 'open_registry')
     slash_end = _str_const(_one(_calls(opn, attr='compile'), 'open_registry re.compile').args[0], 'slashEnd')
-    splitc = _one([c for c in _calls(opn, attr='split')], 'open_registry re.split')
-    kv_split = _str_const(splitc.args[0], 'key/value split regexp')
-    kv_max = literal(splitc.args[2], 'key/value maxsplit')
+    kvc = _one(_calls(opn, name='_unescapedFind'), 'open_registry _unescapedFind(acc, <sep>)')
+    kv_sep = _str_const(kvc.args[1], 'key/value separator')
     rstrips = [_str_const(c.args[0], 'rstrip arg') for c in _calls(opn, attr='rstrip')]
     strips = [_str_const(c.args[0], 'strip arg') for c in _calls(opn, attr='strip') if c.args]
     if len(rstrips) != 1 or len(strips) != 1:
@@ -126,7 +125,12 @@ def gen_registry():
     header = literal(find_assign(reg, 'CONF_FILE_HEADER'), 'CONF_FILE_HEADER')
 
     # --- names
-    split_re = _str_const(_one([find_assign(reg, '_splitRe')], '_splitRe').args[0], '_splitRe')
+    spl = find_func(reg, 'split')
+    name_sep = _str_const(_one(_calls(spl, name='_unescapedFind'), 'split _unescapedFind(name, <sep>, start)').args[1], 'name separator')
+    uf = find_func(reg, '_unescapedFind')
+    uf_body = [st for st in uf.body if not (isinstance(st, ast.Expr) and isinstance(st.value, ast.Constant))]
+    unescaped_find_src = '; '.join(ast.unparse(st).replace('\n', ' ') for st in uf_body)
+    unescaped_find_src = ' '.join(unescaped_find_src.split())
     esc = find_func(reg, 'escape'); unesc = find_func(reg, 'unescape')
     esc_repl = [(_str_const(c.args[0], 'escape replace'), _str_const(c.args[1], 'escape replace')) for c in _calls(esc, attr='replace')]
     unesc_repl = [(_str_const(c.args[0], 'unescape replace'), _str_const(c.args[1], 'unescape replace')) for c in _calls(unesc, attr='replace')]
@@ -323,13 +327,13 @@ def gen_registry():
     d('source of the expression returned by String._needsQuoting', 'needsQuotingSrc', 'String', lstring(needs_quoting_src))
     d('registry.ENCODING on Python 3', 'encoding', 'String', lstring(encoding))
     d('open_registry: slashEnd regexp', 'slashEndRe', 'String', lstring(slash_end))
-    d('open_registry: key/value split regexp', 'kvSplitRe', 'String', lstring(kv_split))
-    d('open_registry: maxsplit', 'kvMaxSplit', 'Nat', str(int(kv_max)))
+    d('open_registry: key/value separator searched with _unescapedFind', 'kvSeparator', 'Py.Str', lstr(kv_sep))
     d('open_registry: line.rstrip(chars)', 'lineRstrip', 'Py.Str', lstr(rstrips[0]))
     d('open_registry: value.strip(chars)', 'valueStrip', 'Py.Str', lstr(strips[0]))
     d('close(): format of a value line', 'lineFormat', 'String', lstring(line_fmt))
     d('CONF_FILE_HEADER', 'confFileHeader', 'Py.Str', lstr(header))
-    d('registry._splitRe', 'nameSplitRe', 'String', lstring(split_re))
+    d('registry.split: separator searched with _unescapedFind', 'nameSeparator', 'Py.Str', lstr(name_sep))
+    d('registry._unescapedFind: its statements', 'unescapedFindSrc', 'String', lstring(unescaped_find_src))
     d('escape(): str.replace pairs (sorted)', 'escapeReplace', 'List (String × String)', llist('(%s, %s)' % (lstring(a), lstring(b)) for a, b in esc_repl))
     d('unescape(): str.replace pairs in source order', 'unescapeReplace', 'List (String × String)', llist('(%s, %s)' % (lstring(a), lstring(b)) for a, b in unesc_repl))
     d('CommaSeparatedListOfStrings.splitter regexp', 'commaSplitRe', 'String', lstring(comma_re))
